@@ -42,7 +42,7 @@ Print Assumptions C07_mpsc_disconnect_stable.
 Theorem C07_mpsc_send_after_port_drop : forall s a, Reach s ->
   (ralive (R s) = false -> pdrop s = true) /\
   (sdead (Sd s a) = true -> sp (Sd s a) = SChk \/ (sp (Sd s a) = SIdle /\ sres (Sd s a) = false)).
-Proof. intros s a H. split; [exact (mpsc_port_dropped_flag s H) | exact (mpsc_send_after_port_drop s a H)]. Qed.
+Proof. exact mpsc_receiver_gone. Qed.
 Print Assumptions C07_mpsc_send_after_port_drop.
 
 Example C07_mpsc_nonvacuous :
@@ -75,7 +75,7 @@ Print Assumptions C07_spsc_call_after_disconnect.
 Theorem C07_spsc_send_after_port_drop : forall s, Reach true s ->
   (ralive (R s) = false -> pdrop s = true) /\
   (sdead (Sn s) = true -> sp (Sn s) = SChk \/ (sp (Sn s) = SIdle /\ sres (Sn s) = false)).
-Proof. intros s H. split; [exact (spsc_port_dropped_flag s H) | exact (spsc_send_after_port_drop s H)]. Qed.
+Proof. exact spsc_receiver_gone. Qed.
 Print Assumptions C07_spsc_send_after_port_drop.
 
 (* the code before the F6 repair (7fc6074): the coroutine receiver is suspended for ever, the sender gone *)
